@@ -132,6 +132,7 @@ func runCheck(repo, verif, prop, tier string, workers int, verbose bool) int {
 	}
 	eng.specs = loadSpecs(repo, filepath.Join(verif, "contracts-lib"))
 	eng.verifDir = verif
+	os.Setenv("VERIF_REPO", repo)
 	timeout := 10
 	if tier == "thorough" {
 		timeout = 60
